@@ -797,10 +797,10 @@ class RegView:
         return {("named" if self.types[t][1] != "-" else "unnamed") for t in ids if self.types[t][0] == "partial"}
 
 
-# F25 (known): overlap/intersect incomplete where a callable or process type is reachable.  (Partial
+# F25 (fixed dea0269): overlap/intersect were incomplete where a callable or process type is reachable.  (Partial
 # types were part of it until fix 7ba69a0 = F25p; they no longer excuse a failure.)
 HIGHER = {"fn", "proc"}
-# F87: filter_variants_by_field keeps only the variants whose field type is
+# F87 (fixed d6406e8): filter_variants_by_field kept only the variants whose field type is
 # ASSIGNABLE to the tested type, dropping e.g. A[x: 'int | 'bin] after `.x ='int` succeeded
 FILTER_KEY = "F87"
 # F29 (fixed 2932723): unnamed partial accepted where a named partial is expected
